@@ -1,6 +1,7 @@
 import CvModel.Value
 import CvModel.Abf
 import CvModel.Restraint
+import CvModel.Meta
 /-
   The per-step machine of the module for value-injected scalar variables
   (`colvarmodule::calc`: `calc_colvars`, `calc_biases`, `update_colvar_forces`, `end_of_step`;
@@ -29,6 +30,7 @@ inductive Bias (α : Type) where
   | abf (cvs : List Nat) (p : AbfParams α) (s : AbfState α)
   | harm (cvs : List Nat) (k : α) (centers : List α)
   | restr (cvs : List Nat) (p : RParams α) (s : RState α)
+  | mtd (cvs : List Nat) (p : MetaParams α) (s : MetaState α)
 
 structure Sys (α : Type) where
   clock : Clock := {}
@@ -84,6 +86,10 @@ def biasUpdate (m : Sys α) (c : Clock) (cvs : List (CvSt α)) : Bias α → Bia
     let xs := (getCvs cvs idx).map (·.x)
     let (s', o) := restraintStep p c s xs
     (.restr idx p s', o.energy, idx.zip o.forces)
+  | .mtd idx p s =>
+    let xs := (getCvs cvs idx).map (·.x)
+    let (s', e, f) := metaStep p c s xs
+    (.mtd idx p s', e, idx.zip f)
 
 structure StepOut (α : Type) where
   energy : α
